@@ -37,7 +37,8 @@ def run(cx):
         req = {
             'iterations-le-soft': rf'^le\({ITER},arg6\)$',
             'iterations-le-hard': rf'^le\({ITER},arg7\)$',
-            'params-agree': r"^!<Iter<'a;T> as Iterator>::any\(slice::iter\(.*\),closure:nsec3::verify_nsec3::\{closure@any#0\}\)$",
+            'params-agree': r"^!<Iter<'a;T> as Iterator>::any\(slice::iter\(.*\),closure:nsec3::verify_nsec3::\{closure@any#0\}\)$"
+                            r"|^<Iter<'a;T> as Iterator>::all\(slice::iter\(.*\),closure:nsec3::verify_nsec3::\{closure@all#0\}\)$",
             'all-records-scanned': r"^!ok\(<Iter<'a;T> as Iterator>::next\(arg5\)\)$",
         }
         cx.guard('C09.G1', down, req, expect=3, fn=f)
@@ -69,9 +70,12 @@ def run(cx):
         cx.check('C09.G1', ok, c0.path, 'ret', 'zone-mismatch-is-name-inequality',
                  'closure must report a mismatch exactly when base != soa: ' + '; '.join(s.term[:160] for s in t),
                  t[0].loc if t else '')
-    c1 = cx.fn('C09.G1', N + 'verify_nsec3::{closure@any#0}')
+    # the mismatch scan is either `any(|r| r differs)` negated or its dual `all(|r| r agrees)`: the record-agrees outcome of the
+    # closure (false of `any`, true of `all`) must imply the three equalities
+    dual = (N + 'verify_nsec3::{closure@all#0}') in cx.prog.fns and (N + 'verify_nsec3::{closure@any#0}') not in cx.prog.fns
+    c1 = cx.fn('C09.G1', N + ('verify_nsec3::{closure@all#0}' if dual else 'verify_nsec3::{closure@any#0}'))
     if c1:
-        fr = cx.false_returns(c1)
+        fr = cx.true_returns(c1) if dual else cx.false_returns(c1)
         cx.guard('C09.G1', fr, {
             'algorithm-equal': r'^eq:Nsec3HashAlgorithm\(NSEC3::hash_algorithm\(.*\^arg\d.*\),NSEC3::hash_algorithm\(arg2\.nsec3_data\)\)$',
             'salt-equal': r'^eq:\[u8\]\(NSEC3::salt\(.*\^arg\d.*\),NSEC3::salt\(arg2\.nsec3_data\)\)$',
